@@ -52,7 +52,9 @@ def initial_trees():
                      "src/link-up": {"symlink": "../../outside"}, "dangling": {"symlink": "nowhere"},
                      # .license siblings that are symbolic links: to a file outside, to a not yet existing file outside, to a shared file inside
                      "src/sub/b.c.license": {"symlink": "../../../outside/secret.txt"}, "img.png": {"hex": PNG_HEX}, "img.png.license": {"symlink": "../outside/created-through-link.txt"},
-                     "src/c.py": "c = 1\n", "src/c.py.license": {"symlink": "../shared.license"}, "shared.license": "SPDX-FileCopyrightText: 2001 Shared\nSPDX-License-Identifier: MIT\n"}
+                     "src/c.py": "c = 1\n", "src/c.py.license": {"symlink": "../shared.license"}, "shared.license": "SPDX-FileCopyrightText: 2001 Shared\nSPDX-License-Identifier: MIT\n",
+                     # a licence text that is a dangling link to the outside, and the output path of `download -o` likewise
+                     "LICENSES/0BSD.txt": {"symlink": "../../outside/licence-through-link.txt"}, "third-party/L.txt": {"symlink": "../../outside/output-through-link.txt"}}
     t["dep5"] = {".reuse/dep5": DEP5, "src/a.py": "a = 1\n", "src/sub/b.c": "int b;\n", "LICENSES/MIT.txt": "mit\n", ".reuse/templates/x.jinja2": "{{ x }}\n"}
     t["readonly"] = {"src/a.py": {"text": H + "a = 1\n", "mode": 0o444}, "src/sub/b.c": {"text": "int b;\n", "mode": 0o444}, "src/c.py": H.replace("MIT", "0BSD") + "c = 1\n",
                      "LICENSES/README": {"text": "licences live here\n", "mode": 0o444}, "LICENSE": "top-level licence\n", "x.py.license": "SPDX-License-Identifier: MIT\n"}
